@@ -73,18 +73,21 @@ class Harness:
     """routes a line to the executable that holds the code it exercises"""
 
     def __init__(self, stage):
-        self.snmp = ProcHarness([build_snmp(stage)], env=HENV)
+        from concurrent.futures import ThreadPoolExecutor
+        with ThreadPoolExecutor(max_workers=2) as ex:
+            fs, fu = ex.submit(build_snmp, stage), ex.submit(build_udp, stage)
+            self.h = {"snmp": ProcHarness([fs.result()], env=HENV), "udp": ProcHarness([fu.result()], env=HENV)}
         self.crashes = 0
 
     def run(self, lines):
-        groups = {"snmp": []}
+        groups = {"snmp": [], "udp": []}
         where = []
         for l in lines:
-            g = "snmp"
+            g = "udp" if l[:2] in ("i ", "h ") else "snmp"
             where.append((g, len(groups[g])))
             groups[g].append(l)
-        outs = {"snmp": self.snmp.run(groups["snmp"]) if groups["snmp"] else []}
-        self.crashes = self.snmp.crashes
+        outs = {g: (self.h[g].run(ls) if ls else []) for g, ls in groups.items()}
+        self.crashes = sum(h.crashes for h in self.h.values())
         return [outs[g][k] for g, k in where]
 
 
@@ -336,7 +339,207 @@ def cases_snmp(rng, tier):
         yield snmp_line(rng.bytes(rng.choice([1, 2, 3, 5, 8, 20, 40, 100])))
 
 
+# ------------------------------------------------------------------------------------------------ ICP
+
+ICP_OPS = {"QUERY": 1, "HIT": 2, "MISS": 3, "ERR": 4, "DECHO": 11, "MISS_NOFETCH": 21, "DENIED": 22, "HIT_OBJ": 23, "END": 24}
+URLS = [b"http://example.com/", b"http://example.com/a?b=c", b"http://[::1]:8080/x", b"ftp://ftp.example.org/pub/f.txt", b"example.com:443",
+        b"http://exa mple.com/", b"http://example.com/\tx", b"/relative", b"", b"h", b"http://", b"urn:x:y", b"http://example.com/" + b"a" * 300,
+        b"\xff\xfe\x80", b"http://user:pw@example.com/", b"cache_object://localhost/info"]
+
+
+def icp_msg(op, ver, url, reqnum=7, length=None, extra=None, term=True, flags=0, pad=0, shost=0):
+    """reference encoder (RFC 2186): header + [requester address for queries] + URL + NUL"""
+    import struct
+    body = ((b"\0\0\0\0" if extra is None else extra) if op == 1 else (extra or b"")) + url + (b"\0" if term else b"")
+    n = 20 + len(body)
+    return struct.pack("!BBHIIII", op & 255, ver & 255, (n if length is None else length) & 0xffff, reqnum & 0xffffffff, flags, pad, shost) + body
+
+
+def icp_line(dg, stale=b""):
+    return "i %s %s" % (hx(dg), hx(stale))
+
+
+def gen_url(rng):
+    k = rng.below(8)
+    if k < 5:
+        return rng.choice(URLS)
+    if k == 5:
+        return bytes(rng.range(1, 255) for _ in range(rng.range(0, 40)))
+    if k == 6:
+        return b"http://h/" + bytes(rng.choice(b"abc %\t\r\n\x7f\x80") for _ in range(rng.range(0, 30)))
+    return b"http://example.com/" + b"p" * rng.choice([200, 1000, 4000, 16000, 16300, 16340, 16350, 16360, 16380])
+
+
+def cases_icp(rng, tier):
+    thorough = tier == "thorough"
+    yield icp_line(b"")
+    # every length below and around the header size, both versions
+    for n in range(1, 28):
+        for ver in (2, 3):
+            yield icp_line(bytes([1, ver]) + bytes((n >> 8, n & 255)) + b"\0" * (n - 4) if n >= 4 else bytes([1, ver][:n]))
+    # every opcode x version 2/3 (+ a few other versions) with a good URL
+    for op in range(0, 256 if thorough else 32):
+        for ver in (2, 3):
+            yield icp_line(icp_msg(op, ver, b"http://example.com/%d" % op))
+    for ver in [0, 1, 4, 127, 128, 255]:
+        yield icp_line(icp_msg(1, ver, b"http://example.com/"))
+    n = 1500 if thorough else 250
+    for _ in range(n):
+        op = rng.choice([1, 1, 1, 2, 3, 11, 21, 22, 0, 4, 23, 24, 25, rng.below(256)])
+        ver = rng.choice([2, 2, 2, 3, 3, rng.below(256)])
+        url = gen_url(rng)
+        k = rng.below(12)
+        stale = rng.choice([b"", b"", b"x", b"\xff" * 8, rng.bytes(16)])
+        if k < 5:
+            dg = icp_msg(op, ver, url, reqnum=rng.choice([0, 1, 7, 8191, 8192, 2 ** 31, 2 ** 32 - 1]), flags=rng.choice([0, 0x80000000, 0x40000000, 0xffffffff]))
+        elif k == 5:
+            dg = icp_msg(op, ver, url, term=False)                              # unterminated
+        elif k == 6:
+            dg = icp_msg(op, ver, url + b"\0" + rng.bytes(rng.range(0, 5)))    # embedded NUL / trailing garbage
+        elif k == 7:
+            good = icp_msg(op, ver, url)
+            dg = icp_msg(op, ver, url, length=len(good) + rng.choice([-21, -5, -1, 1, 2, 100, 40000]))   # length field lies
+        elif k == 8:
+            dg = icp_msg(op, ver, b"", extra=b"" if rng.chance(1, 2) else b"\0\0")   # query without (all of) the requester address
+        elif k == 9:
+            good = icp_msg(op, ver, url)
+            cut = rng.range(0, len(good))
+            dg = good[:cut]                                                      # raw truncation
+            if rng.chance(1, 2) and cut >= 4:
+                dg = dg[:2] + bytes((cut >> 8, cut & 255)) + dg[4:]              # ... with a consistent length field
+        else:
+            dg = mutate(rng, icp_msg(op, ver, url))
+        yield icp_line(dg, stale)
+    # sizes around the receive buffer
+    for size in [16380, 16381, 16382, 16383, 16384, 16385, 16500]:
+        for op in (1, 2):
+            url = b"http://example.com/" + b"q" * (size - 20 - (4 if op == 1 else 0) - 1 - 19)
+            yield icp_line(icp_msg(op, 2, url))
+            yield icp_line(icp_msg(op, 2, url, term=False))
+            yield icp_line(icp_msg(op, 3, b" " * (len(url))))     # all whitespace: the ICP_ERR reply carries the escaped URL (3x)
+    for _ in range(100 if thorough else 20):
+        yield icp_line(rng.bytes(rng.choice([1, 4, 19, 20, 21, 24, 25, 40, 100])))
+
+
+# ------------------------------------------------------------------------------------------------ HTCP
+
+def cstr16(b, lie=0):
+    import struct
+    return struct.pack("!H", (len(b) + lie) & 0xffff) + b
+
+
+def htcp_msg(op, rr, f1, data, msgid=5, minor=1, resp=0, major=0, dlen=None, total=None, auth=b"\0\2", reserved=0):
+    """reference encoder (RFC 2756): HEADER + DATA + AUTH; minor 0 = the bit-field layout of old Squids"""
+    import struct
+    dl = 8 + len(data) if dlen is None else dlen
+    if minor:
+        b1 = ((op & 15) << 4) | (resp & 15)
+        b2 = ((reserved & 63) << 2) | ((f1 & 1) << 1) | (rr & 1)
+    else:
+        b1 = ((resp & 15) << 4) | (op & 15)
+        b2 = ((rr & 1) << 7) | ((f1 & 1) << 6) | (reserved & 63)
+    d = struct.pack("!HBBI", dl & 0xffff, b1, b2, msgid & 0xffffffff) + data
+    tot = 4 + len(d) + len(auth) if total is None else total
+    return struct.pack("!HBB", tot & 0xffff, major & 255, minor & 255) + d + auth
+
+
+def htcp_line(dg, stale=b"", flags="-"):
+    return "h %s %s %s" % (hx(dg), hx(stale), flags)
+
+
+def gen_spec(rng, lies=False):
+    method = rng.choice([b"GET", b"GET", b"HEAD", b"POST", b"PURGE", b"", b"G\0T", b"X" * 40])
+    uri = gen_url(rng)[:3000]
+    ver = rng.choice([b"1.1", b"1.0", b"", b"HTTP/1.1", b"9" * 20])
+    hdrs = rng.choice([b"", b"Host: example.com\r\n\r\n", b"Accept: */*\r\nCache-Control: max-age=0\r\n\r\n", b"\r\n", b"bad header", rng.bytes(12),
+                       b"X: " + b"y" * 2000 + b"\r\n\r\n"])
+    parts = [method, uri, ver, hdrs]
+    if not lies:
+        return b"".join(cstr16(p) for p in parts), parts
+    i = rng.below(4)
+    return b"".join(cstr16(p, rng.choice([1, 2, -1, 100, 65000]) if j == i else 0) for j, p in enumerate(parts)), parts
+
+
+def gen_detail(rng, lies=False):
+    parts = [rng.choice([b"", b"Age: 3\r\n", b"Age: x\r\n", rng.bytes(8)]), rng.choice([b"", b"Expires: Thu, 01 Jan 1970 00:00:00 GMT\r\n", b"Last-Modified: x\r\n"]),
+             rng.choice([b"", b"Cache-to-Origin: example.com 1 0.5 3\r\n", b"Cache-to-Origin: \r\n", b"Cache-to-Origin: " + b"h" * 300 + b" 1 2 3\r\n"])]
+    i = rng.below(3) if lies else -1
+    return b"".join(cstr16(p, rng.choice([1, -1, 50, 65000]) if j == i else 0) for j, p in enumerate(parts))
+
+
+def cases_htcp(rng, tier):
+    thorough = tier == "thorough"
+    yield htcp_line(b"")
+    for n in range(1, 16):
+        yield htcp_line(bytes((n >> 8, n & 255, 0, 1)[:n]) + b"\0" * max(0, n - 4))
+    spec, _ = gen_spec(rng)
+    # every opcode x RR x F1 x format, with a specifier / a detail as payload
+    for op in range(16):
+        for rr in (0, 1):
+            for f1 in (0, 1):
+                for minor in (0, 1):
+                    data = (b"\0\1" if op == 4 else b"") + (gen_detail(rng) if rr else spec)
+                    yield htcp_line(htcp_msg(op, rr, f1, data, minor=minor))
+                    if rr:
+                        yield htcp_line(htcp_msg(op, rr, f1, data, minor=minor), b"", "m")
+    # structural truncations of a TST request, a CLR request and a TST response: the DATA ends after every prefix of the payload
+    for (op, rr, pre, payload, fl) in [(1, 0, b"", spec, "-"), (4, 0, b"\0\1", spec, "-"), (1, 1, b"", gen_detail(rng), "m")]:
+        full = pre + payload
+        for k in range(len(full) + 1):
+            if k < 80 or k > len(full) - 12 or thorough:
+                yield htcp_line(htcp_msg(op, rr, 1 if rr == 0 else 0, full[:k]), rng.choice([b"", b"\xff\xff\xff\xff"]), fl)
+                yield htcp_line(htcp_msg(op, rr, 1 if rr == 0 else 0, full[:k], auth=b""), b"\xff\xff\xff\xff", fl)
+    n = 1500 if thorough else 250
+    for _ in range(n):
+        k = rng.below(12)
+        op = rng.choice([1, 1, 1, 4, 4, 0, 2, 3, rng.below(16)])
+        rr = rng.choice([0, 0, 1])
+        f1 = rng.choice([1, 1, 0])
+        minor = rng.choice([1, 1, 0, 2, 255])
+        lies = k in (3, 4)
+        data = (b"\0" + bytes([rng.below(256)]) if op == 4 else b"") + (gen_detail(rng, lies) if (rr and op == 1) else gen_spec(rng, lies)[0])
+        stale = rng.choice([b"", b"", b"\xff" * 6, rng.bytes(10)])
+        fl = "m" if rr and rng.chance(2, 3) else "-"
+        msgid = rng.choice([0, 0, 5, 8192, 2 ** 32 - 1, rng.below(2 ** 32)])
+        auth = rng.choice([b"\0\2", b"\0\2", b"", b"\0", rng.bytes(rng.range(0, 30))])
+        if k <= 4:
+            dg = htcp_msg(op, rr, f1, data, msgid=msgid, minor=minor, auth=auth, resp=rng.below(16), reserved=rng.below(64))
+        elif k == 5:
+            dg = htcp_msg(op, rr, f1, data, msgid=msgid, minor=minor, auth=auth, dlen=rng.choice([0, 1, 7, 8, 9, len(data) + 7, len(data) + 9, len(data) + 8 + len(auth), 65535]))
+        elif k == 6:
+            good = htcp_msg(op, rr, f1, data, msgid=msgid, minor=minor, auth=auth)
+            dg = htcp_msg(op, rr, f1, data, msgid=msgid, minor=minor, auth=auth, total=len(good) + rng.choice([-1, 1, -4, 100]))
+        elif k == 7:
+            dg = htcp_msg(op, rr, f1, data, msgid=msgid, minor=minor, major=rng.choice([1, 255]))
+        elif k == 8:
+            good = htcp_msg(op, rr, f1, data, msgid=msgid, minor=minor, auth=b"")
+            cut = rng.range(0, len(good))
+            dg = good[:cut]
+            if cut >= 12 and rng.chance(2, 3):    # consistent truncation: both length fields follow
+                dg = bytes((cut >> 8, cut & 255)) + dg[2:4] + bytes(((cut - 4) >> 8, (cut - 4) & 255)) + dg[6:]
+        elif k == 9:
+            dg = htcp_msg(op, rr, f1, b"", msgid=msgid, minor=minor, auth=auth)
+        else:
+            dg = mutate(rng, htcp_msg(op, rr, f1, data, msgid=msgid, minor=minor, auth=auth))
+        yield htcp_line(dg, stale, fl)
+    # sizes around the receive buffer: the specifier's last string runs up to the very end of the datagram (no AUTH behind it)
+    for size in [8187, 8188, 8189, 8190, 8191, 8192, 8193, 8300]:
+        for op in (1, 4):
+            fixed = len(htcp_msg(op, 0, 1, (b"\0\1" if op == 4 else b"") + cstr16(b"GET") + cstr16(b"http://example.com/") + cstr16(b"1.1") + cstr16(b""), auth=b""))
+            hdrs = b"H: " + b"v" * (size - fixed - 3)
+            data = (b"\0\1" if op == 4 else b"") + cstr16(b"GET") + cstr16(b"http://example.com/") + cstr16(b"1.1") + cstr16(hdrs)
+            yield htcp_line(htcp_msg(op, 0, 1, data, auth=b""))
+            yield htcp_line(htcp_msg(op, 0, 1, data, auth=b"", minor=0))
+        det = cstr16(b"Age: 1\r\n") + cstr16(b"") + cstr16(b"C: " + b"w" * (size - 12 - 6 - 8 - 3))
+        yield htcp_line(htcp_msg(1, 1, 0, det, auth=b""), b"", "m")
+    for _ in range(100 if thorough else 20):
+        yield htcp_line(rng.bytes(rng.choice([1, 3, 4, 11, 12, 13, 20, 40, 100])), b"", rng.choice(["-", "m"]))
+
+
 def cases(rng, tier):
+    # streams are interleaved so that the first MAX_REPORT unexplained failures are not all from one protocol
+    yield from cases_icp(rng.fork("icp"), tier)
+    yield from cases_htcp(rng.fork("htcp"), tier)
     yield from cases_snmp(rng.fork("snmp"), tier)
 
 
@@ -352,12 +555,13 @@ def parse_out(impl):
     return d
 
 
+BUF = {"s": SNMP_BUF, "S": SNMP_BUF, "i": ICP_BUF, "h": HTCP_BUF}
+
+
 def dg_len(line):
     p = line.split(" ")
     n = 0 if p[1] == "-" else len(p[1]) // 2
-    if p[0] in ("s", "S"):
-        return min(n, SNMP_BUF - 1)
-    return n
+    return min(n, BUF[p[0]] - 1)      # recvfrom is given one octet less than the buffer
 
 
 def oracle(line, impl):
@@ -369,16 +573,27 @@ def oracle(line, impl):
     d = parse_out(impl)
     if "asan" in d:
         return "AddressSanitizer report while handling the datagram: %s (over=%s)" % (d["asan"], d.get("over"))
-    if op == "s":
-        over = int(d.get("over", "0"))
-        if dg_len(line) + over > SNMP_BUF:
-            return "access %d octet(s) past the %d-octet receive buffer" % (dg_len(line) + over - SNMP_BUF, SNMP_BUF)
+    if "over" not in d:
+        return "no access summary in the harness output: " + impl[:80]
+    if op in ("s", "i", "h"):
+        over = int(d["over"])
+        if dg_len(line) + over > BUF[op]:
+            return "access %d octet(s) past the %d-octet receive buffer" % (dg_len(line) + over - BUF[op], BUF[op])
+    if op in ("i", "h") and "!" in d.get("nul", ""):
+        return "the handler wrote something other than a terminator into the receive buffer"
     return None
 
 
 def compare(line, impl, model):
-    # the model does not predict sanitizer reports: they are the oracle's business
-    return re.sub(r" asan=\S+", "", impl) == model
+    # the model predicts neither sanitizer reports (the oracle's business) nor what happens once the URL has been handed to
+    # the URL parser / ACLs / neighbor tables (behind the " |")
+    i = re.sub(r" asan=\S+", "", impl.split(" |")[0])
+    if i == model:
+        return True
+    if line.startswith("i ") and " url=" in model and " url=" not in i:
+        # the query's URL is visible in the reply only when the reply is ICP_DENIED (ICP_ERR carries an escaped/absent one)
+        return i == re.sub(r" url=\S+", "", model)
+    return False
 
 
 def classify(line, impl, why):
@@ -410,12 +625,23 @@ def shrink(line):
 
 
 def nontrivial(line, impl, model):
-    return impl.startswith("ok ") or (impl.startswith("fail") and "dbg=0" in impl) or (impl.startswith("fail") and "dbg=8" in impl)
+    op = line[0]
+    if op in "sS":
+        return impl.startswith("ok ") or (impl.startswith("fail") and "dbg=0" in impl) or (impl.startswith("fail") and "dbg=8" in impl)
+    if op == "i":
+        return " url" in impl or "reply-url" in impl
+    return "left=" in impl or "bad:" in impl or "short:" in impl
 
 
 def tag(line, impl, model):
     op = line.split(" ")[0]
     d = parse_out(impl)
+    if op == "i":
+        m = re.search(r" (ignore:\w+|badlen|url:\w+|url=|reply-url=|unknown-op)", impl)
+        return "i %s over=%s" % (m.group(1) if m else "nop", d.get("over"))
+    if op == "h":
+        m = re.findall(r"(drop:[\w-]+|nop|mon|set|tst:empty|left=|dleft=|bad:[\w-]+|short:[A-Za-z-]+|rsp:\w+)", impl.split(" |")[0])
+        return "h %s over=%s" % ("+".join(x.rstrip("=") for x in m[-2:]) if m else "silent", d.get("over"))
     if impl.startswith("ok"):
         return "%s ok vars=%s over=%s" % (op, "0" if d.get("vars") == "0" else "1" if d.get("vars") == "1" else "2+", d.get("over"))
     if impl.startswith("fail"):
@@ -427,7 +653,7 @@ def exhaustive(tier):
     return tier == "thorough"
 
 
-RULE = "s/S: SNMP datagrams (reference BER encoder, structural truncations, buffer-filling sizes, mutations) through snmp_parse"
+RULE = "i/h: ICP and HTCP datagrams through icpHandleUdp/htcpRecv; s/S: SNMP datagrams (reference BER encoder, structural truncations, buffer-filling sizes, mutations) through snmp_parse"
 TRUSTED = []
 ASSUMPTIONS = []
 MANIFEST = {"text": "partial: (under construction)", "note": "", "technique": "", "engine": "lean+asan"}
